@@ -7,6 +7,7 @@ again (spec/Trace.tla). A VIOL line names the properties whose predicate rejecte
 the event; a check reports those that name its own property."""
 
 DEV_REL = ["dev+b", "rel+b"]
+ALL_CFGS = ["dev+b", "rel+b", "dev-b", "rel-b"]
 
 CORPORA = {
     # C08 scope: the two crates' own header kinds (DummyTestHeader is a test utility of multiboot2-common)
@@ -33,9 +34,10 @@ CORPORA = {
                  profiles=DEV_REL, place="both"),
     "cks": dict(model="MC_Header", cfg="MC_Cks", quick={}, thorough={}, profiles=DEV_REL, place="end"),
     "ctor": dict(model="MC_Build", cfg="MC_Ctor", quick=dict(MaxContent=17, BigPalettes="{257, 21847, 21848, 65537, 65538}"), thorough=dict(MaxContent=40, BigPalettes="{257, 21847, 21848, 21849, 65537, 65538}"), profiles=DEV_REL, place="end"),
+    "ctorsized": dict(model="MC_Build", cfg="MC_CtorSized", quick=dict(MaxContent=1), thorough=dict(MaxContent=1), profiles=ALL_CFGS, place="end"),
     "boxed": dict(model="MC_Build", cfg="MC_Boxed", quick=dict(MaxTotal=8), thorough=dict(MaxTotal=17), profiles=DEV_REL, place="end"),
     "builder": dict(model="MC_Build", cfg="MC_Builder", quick=dict(MaxSeq=2), thorough=dict(MaxSeq=3), profiles=DEV_REL, place="end"),
-    "hbuilder": dict(model="MC_Build", cfg="MC_HBuilder", quick=dict(MaxSeq=3), thorough=dict(MaxSeq=4), profiles=DEV_REL, place="end"),
+    "hbuilder": dict(model="MC_Build", cfg="MC_HBuilder", quick=dict(MaxSeq=3, BigRequests="{2039, 2040, 2041}"), thorough=dict(MaxSeq=4, BigRequests="{2039, 2040, 2041, 4096, 16384}"), profiles=DEV_REL, place="end"),
     "str": dict(model="MC_Str", quick=dict(MaxStr=3), thorough=dict(MaxStr=4, StrKinds='{"cmdline"}'), profiles=DEV_REL, place="both"),
     "typeids": dict(model="MC_TypeIds", quick={}, thorough={}, profiles=DEV_REL, place="end"),
     "rsdp": dict(model="MC_Rsdp", quick={}, thorough={}, profiles=DEV_REL, place="both"),
@@ -69,9 +71,8 @@ CORPORA = {
 }
 
 # property -> list of corpus names; nontrivial rule used for evidence
-ALL_CFGS = ["dev+b", "rel+b", "dev-b", "rel-b"]
 PARSE_CORPORA = ["adv", "big", "load", "walk", "fields", "getters", "dst", "sized", "fb", "rsdp", "efi", "elf", "str",
-                 "hload", "hwalk", "hfields", "hgetters", "hdst", "find", "findbytes", "cks", "refslice8", "typeids"]
+                 "hload", "hwalk", "hfields", "hgetters", "hdst", "find", "findbytes", "cks", "refslice8", "typeids", "ctorsized"]
 
 CHECKS = {
     "C08": dict(technique="TLC-generated cases replayed by four builds (dev/release x builder feature on/off); TLC (spec/Trace8.tla) compares every "
@@ -100,7 +101,7 @@ CHECKS = {
                 rule="all call sequences up to MaxSeq over 7 representative slots x 2 contents; every one of the 22 slots alone and in all ordered pairs; "
                      "seeded random subsets / orders / repeated calls of all 22 slots, the full set and every all-but-one subset (native generator "
                      "recombining the specification's argument records; NOT all 2^22 subsets)"),
-    "C07": dict(corpora=["ctor", "builder", "hbuilder", "session"],
+    "C07": dict(corpora=["ctor", "ctorsized", "builder", "hbuilder", "session"],
                 rule="every public constructor of both crates x 2 byte-marked argument sets; variable-length kinds with content lengths 0..MaxContent; "
                      "constructors reached through the builders' setters as well"),
     "C12": dict(corpora=["hbuilder", "hbgen", "hsession"],
@@ -113,7 +114,7 @@ CHECKS = {
                      "declared size 0..40, conformant tags; every call checked for crash/hang and extents inside the declared header"),
     "C10": dict(technique="TLA+ specification + TLC model checking + TLC trace validation of replayed cases; checksum law: Apalache on the specification "
                           "operators (integer and 16-bit-limb form) over the full domain + native sweep of all 2^32 lengths x both architectures",
-                corpora=["hload", "cks", "big"],
+                corpora=["hload", "cks", "big", "boxed"],
                 sweeps=[("checksum", None, 1, 1)], laws=["CkLaw", "LimbLaw"],
                 rule="all (length 0..MaxLen, magic right/one-bit-off/zero, checksum right/+1/-1/zero, both architectures) + null; "
                      "calc_checksum on 54 boundary (magic, arch, length) triples judged on 16-bit limbs; all 2^32 lengths x both architectures "
@@ -133,7 +134,7 @@ CHECKS = {
     "C01": dict(corpora=["fields", "getters", "dst", "sized", "custom", "fb", "rsdp", "adv", "efi", "elf", "walk", "load", "mut", "perm", "xcast", "repo"],
                 rule="union of the boot-information corpora (every kind, every declared size, all framebuffer type bytes, "
                      "all walks); every call of every session is checked for crash/hang and for extents inside the owning tag"),
-    "C04": dict(thorough_extra=["mut", "session"], corpora=["fields", "getters", "fb", "rsdp", "repo"],
+    "C04": dict(thorough_extra=["mut", "session"], corpora=["fields", "getters", "fb", "rsdp", "elf", "repo"],
                 rule="fields: every kind at its conformant size x 2 marker fills x 2 positions, every accessor; "
                      "getters: all sequences of <= MaxTags tags over 6 kinds (duplicates use different fills); fb: all 256 type bytes"),
     "C05": dict(thorough_extra=["mut"], corpora=["dst", "fb", "hdst", "adv"],
